@@ -217,7 +217,7 @@ def slow_cases(ctx):
              ("start 1 e,o,B,c1,u,E", "start"), ("start 2 o,A,B,d0,a,p,E", "start")]
     if ctx.tier == "thorough":
         cases += [("seq 0 t,t", "timeout"), ("seq 1 t,n,e", "timeout"), ("seq 3 o,o,t,A,c0,c1,c3", "timeout"),
-                  ("start 1 o,B,c0,b,g,o,B,d3,E", "start"), ("start 3 o,o,o,B,c1,r,o,B,c0,c2,c4,E", "start"),
+                  ("start 1 o,B,c0,b,g,o,B,d3,E", "start"), ("start 3 o,o,o,B,c1,r,o,B,c0,u,c2,c4,E", "start"),
                   ("start 0 o,e,o,j,c0,c2,E", "start")]
         for _ in range(4):
             cases.append(("seq %d %s" % (2, rand_script(rng, 2, 6, allow_slow=True)), "random-slow"))
